@@ -38,6 +38,24 @@ Theorem C18_inplace_aliased : forall ah al, wf128 ah al ->
 Proof. exact aliased_correct. Qed.
 Print Assumptions C18_inplace_aliased.
 
+(* the documented aliasing of the out-of-place functions ("input == result", "a == result", "b == result", "a == b"):
+   the source translated with the parameters aliased equals the non-aliased translation, to which the theorems of this
+   file apply *)
+Theorem C18_outofplace_aliased : forall ah al bh bl s rh rl,
+  sc_uint128_shift_right_inres ah al s = sc_uint128_shift_right ah al s rh rl /\
+  sc_uint128_shift_left_inres ah al s = sc_uint128_shift_left ah al s rh rl /\
+  sc_uint128_bitwise_neg_ares ah al = sc_uint128_bitwise_neg ah al rh rl /\
+  sc_uint128_bitwise_or_ares ah al bh bl = sc_uint128_bitwise_or ah al bh bl rh rl /\
+  sc_uint128_bitwise_or_bres ah al bh bl = sc_uint128_bitwise_or ah al bh bl rh rl /\
+  sc_uint128_bitwise_or_abres ah al = sc_uint128_bitwise_or ah al ah al rh rl /\
+  sc_uint128_bitwise_and_ares ah al bh bl = sc_uint128_bitwise_and ah al bh bl rh rl /\
+  sc_uint128_bitwise_and_bres ah al bh bl = sc_uint128_bitwise_and ah al bh bl rh rl /\
+  sc_uint128_bitwise_and_abres ah al = sc_uint128_bitwise_and ah al ah al rh rl /\
+  sc_uint128_add_ab ah al rh rl = sc_uint128_add ah al ah al rh rl /\
+  sc_uint128_sub_ab ah al rh rl = sc_uint128_sub ah al ah al rh rl.
+Proof. exact outofplace_aliased. Qed.
+Print Assumptions C18_outofplace_aliased.
+
 (* logical shifts by ANY count 0 <= s < 2^31 (counts >= 128 give 0) *)
 Theorem C18_shift_right : forall h l s rh rl, wf128 h l -> 0 <= s < 2 ^ 31 ->
   val128 (sc_uint128_shift_right h l s rh rl) = val128 (h, l) / 2 ^ s
